@@ -333,6 +333,13 @@ class SpecMixin:
             return env.st.ghost[('gheap', g)]
         if name == 'ref':
             return self.refof(self.sev(env, args[0]))
+        if name in ('ashr', 'lshr', 'shl'):
+            a, b = self.sev(env, args[0]), self.sev(env, args[1])
+            if not z3.is_bv(a): raise Unsupported('%s needs bit-vector operands (mode bv)' % name)
+            if not z3.is_bv(b): b = z3.BitVecVal(z3.simplify(b).as_long(), a.size())
+            return (a >> b) if name == 'ashr' else (z3.LShR(a, b) if name == 'lshr' else a << b)
+        if name == 'ult':
+            a, b = self.sev(env, args[0]), self.sev(env, args[1]); return z3.ULT(a, b)
         if name == 'unboxint':
             from .gocalls import unbox_int
             return unbox_int(self.refof(self.sev(env, args[0])))
@@ -361,6 +368,8 @@ class SpecMixin:
         p = self.spec.pures[name]
         if p['body'] is not None and not p.get('rec'):
             binds = {pn: v for (pn, pt), v in zip(p['params'], argv)}
+            for k, v in env.binds.items():
+                if k.startswith('$'): binds[k] = v
             env2 = SpecEnv(env.st, binds, env.old, env.results)
             return self.sev(env2, p['body'].expr)
         f = self.pure_decl(name)
